@@ -34,6 +34,7 @@ from unified_planning.model.problem_kind_versioning import LATEST_PROBLEM_KIND_V
 from unified_planning.engines.compilers.utils import (
     lift_action_instance,
     create_action_with_given_subs,
+    get_fresh_name,
     split_all_ands,
 )
 from typing import Dict, List, Optional, Set, Tuple, Iterator, cast
@@ -460,6 +461,11 @@ class Grounder(engines.engine.Engine, CompilerMixin):
             new_action,
         ) in grounder_helper.get_grounded_actions():
             if new_action is not None:
+                if new_problem.has_name(new_action.name):
+                    # names are built by joining the action and parameter names with "_"
+                    # and only checked against the original problem: two groundings such
+                    # as move(a_b, c) and move(a, b_c) get the same name
+                    new_action.name = get_fresh_name(new_problem, new_action.name)
                 new_problem.add_action(new_action)
                 trace_back_map[new_action] = (old_action, list(parameters))
 
